@@ -23,6 +23,7 @@ func init() {
 		Trusted:   "go/types+go/ssa; sync and sync/atomic semantics; the Go memory model",
 		Run:       runC17,
 		Imports: []Import{
+			{From: "C08.b", Match: "cache-purge-after-disk-delete", As: "C17.f", Why: "a reader racing a tail-side deletion re-populates a cache that was purged before the datastore delete: the header is served after the deletion and the tail recedes onto it"},
 			{From: "C04.a", Match: "getByHeight-miss-after", As: "C17.f", Why: "a flush moves headers from the pending batch to the datastore: a reader that looked at the index first and at the pending batch afterwards can miss a header that was present the whole time"},
 		},
 	})
@@ -199,6 +200,7 @@ func runC17(c *an.Ctx) {
 		c.Check(okS, "C17.c", "sync-dominates", "every store operation of DeleteRange is dominated by a successful Sync()", deleteRange, nil, "", nil)
 		checkSyncRoundTrip(c, "C17.c", syncFn, p.Method("store", "Store", "flushLoop"))
 		checkPendingFirst(c, "C17.f")
+		checkDeleteSideAdvanceGuarded(c, "C17.a")
 	}
 
 	// --- C17.d guarded-by on the pending batch
